@@ -990,7 +990,7 @@ def jobs(tier):
                         if i in ('double', 'send') and first not in ('init_P', 'pierce_1'):
                             continue
                         paced(port, first, pace, i)
-                for n in (5, 13, 16):
+                for n in (5, 13):
                     for i in ('none', 'net_disconnect', 'remote_eof'):
                         paced(port, 'any', pace, i, n)
     if quick:
